@@ -1,5 +1,5 @@
 # Per-property configuration of the opsim driver: variants, budgets, evidence texts.
-VARIANT_ID = {"asan": 1, "asan-fuzzing": 2, "fixed-asan": 3, "checkasm": 4, "ship": 5, "memtrace": 6}
+VARIANT_ID = {"asan": 1, "asan-fuzzing": 2, "fixed-asan": 3, "checkasm": 4, "ship": 5, "memtrace": 6, "fixed-ship": 7}
 
 REAL_CODEC = ["libopus encoder/decoder/multistream/projection objects (real code, rebuilt from /repo working tree)",
               "range coder, SILK, CELT, packet parser, repacketizer, extensions (real code)"]
@@ -157,6 +157,24 @@ PROPS["C11"] = dict(
                                  "argument validity of multistream layouts beyond (Fs, application, channel range) is judged by the library; the check demands consistency (object <=> OPUS_OK, documented error otherwise, no leak)"],
 )
 
+PROPS["C15"] = dict(
+    level="exploration",
+    variants=dict(quick=[("fixed-asan", 2), ("asan", 1), ("checkasm", 1)], thorough=[("fixed-asan", 2), ("asan", 1), ("checkasm", 1)]),
+    must_build=["fixed-asan", "asan"],
+    runs=dict(quick=2500, thorough=60000), secs=dict(quick=50, thorough=600),
+    rule="one evaluation = one simulated session in which every object exists once per CPU level the host offers (0 = portable C .. 4 = AVX2, chosen per object through --wrap=opus_select_arch): "
+         "encoder replicas fed identical PCM and identical control changes, decoder replicas fed identical packets including lost ones (PLC) and FEC calls; fixed-point variant: packets byte-identical across encoder levels and PCM "
+         "bit-identical across decoder levels; float variant: every (encoder level, decoder level) pair agrees on the final range and sample count, the spread of normally decoded float PCM across levels is recorded as a probe only; "
+         "checkasm variant: upstream in-kernel asm-vs-C self-checks armed as assertions under the same load; non-trivial = more than one level available and >=5 calls succeeded; "
+         "distinct = signature over the (TOC, duration, loss / FEC shape) sequence",
+    fault_keys=["plc_steps", "fec_steps", "ctl_applied"],
+    probes_required=["levels", "mode_silk", "mode_hybrid", "mode_celt", "range_checked"],
+    real=REAL_CODEC + ["every x86 kernel the run-time dispatch selects at the simulated level (SSE, SSE2, SSE4.1, AVX2)"],
+    simulated=SIM_COMMON,
+    assumptions=ASSUME_COMMON + ["only the whole-codec clause is decided: kernels and argument shapes that the codec workload reaches; the per-kernel clause (every kernel on all argument shapes and arbitrary data) is a pure-function comparison outside this technique",
+                                 "levels above what the host CPU supports cannot be simulated"],
+)
+
 # ---- MANIFEST texts (bin/mkmanifest)
 _TECH = "deterministic simulation with fault injection: "
 _NOTE = "seeded sampling, not proof; trusted: the simulator's oracles and models, the compilers/sanitizers; DRED/OSCE/custom modes not built. "
@@ -196,3 +214,7 @@ PROPS["C11"].update(
     level_text="seeded search over control-plane sessions with rejected requests as the injected fault (must be atomic: every getter unchanged), plus enumeration of failing allocations for every creator; exact oracles from the request documentation (validation, read-back, no side effects, creation errors, no leak) and TOC-level honouring of the settings in force (duration, forced channels incl. the three-packet bound, bandwidth caps, MDCT-only rules)",
     level_note=_NOTE + "allocation-failure part enumerates every allocation index of every creator (fault_enumeration); the rest is sampling",
     technique=_TECH + "rejected-request and failed-allocation faults between frames, documentation-derived settings model, TOC honouring oracle")
+PROPS["C15"].update(
+    level_text="seeded search over sessions replicated at every simulated CPU feature level: the level each object sees at init is owned by the simulator; fixed-point replicas must agree bit for bit (packets and PCM, including concealment), float replicas on final ranges and counts; upstream asm self-checks armed in the thorough tier",
+    level_note=_NOTE + "whole-codec clause only; the per-kernel clause over all argument shapes is not decided by this technique (pure-function comparison)",
+    technique=_TECH + "CPU feature level as simulator-owned environment nondeterminism (link-time seam), replica-equality oracle across levels, loss faults for the concealment kernels")
